@@ -6,9 +6,11 @@ export GOFLAGS=-mod=mod GOPROXY=off GOSUMDB=off GOTOOLCHAIN=local
 cp /repo/go.sum go.sum
 # the reference model must stand on its external anchors before any check is believed
 go test -count=1 ./ref/
-# warm the build cache for the monitors (hooks on)
-go test -c -tags verif -vet=off -o /dev/null ./codec/
-for p in nodeprops genprops; do
-  if [ -d "$p" ]; then go test -c -tags verif -vet=off -o /dev/null ./$p/; fi
+# warm the build cache for the monitors (hooks on); failures here are reported by the checks themselves
+for p in codec genprops nodeprops; do
+  if ls "$p"/*_test.go >/dev/null 2>&1; then
+    go test -c -tags verif -vet=off -o /dev/null "./$p/" || echo "warning: monitor package $p does not build"
+  fi
 done
+(go test -c -race -tags verif -vet=off -o /dev/null ./nodeprops/ || true) 2>/dev/null
 echo "setup ok"
